@@ -704,7 +704,21 @@ pub fn verif_exception_name() -> (r: Name) ensures r == exception_name() { unimp
 #[verifier::external_body]
 pub fn verif_havoc_init_fields(id: &AST, env: &Environment, ctx: &Context) -> (r: TypeResult<(Option<Class>, HashSet<String>)>)
     ensures r is Err ==> r->Err_0@.len() >= 1,
+        r matches Ok(p) ==> (p.0 is Some) == is_ctor(*id, *env) && hss(p.1) == must_assign(*id, *env, *ctx),
 { unimplemented!() }
+/// the definition is the constructor `init` of a class (preamble, pinned)
+pub uninterp spec fn is_ctor(id: AST, env: Environment) -> bool;
+/// the fields a constructor has to assign: the non-nullable, not defaulted fields the class itself declares (preamble, pinned)
+pub uninterp spec fn must_assign(id: AST, env: Environment, ctx: Context) -> Set<Seq<char>>;
+/// A-REWRITE: `set.iter().map(f).collect::<Vec<String>>()`: one message per member — none iff the set is empty
+#[verifier::external_body]
+pub fn verif_set_map_collect<F: Fn(&String) -> String>(s: &HashSet<String>, f: F) -> (r: Vec<String>)
+    requires forall|x: String| #[trigger] f.requires((&x,)),
+    ensures r@.len() == 0 <==> hss(*s) =~= Set::<Seq<char>>::empty(),
+{ unimplemented!() }
+/// OUTLINED `msgs.iter().map(|msg| TypeErr::new(pos, msg)).collect()`: one diagnostic per message
+#[verifier::external_body]
+pub fn verif_errs_of(msgs: &Vec<String>, pos: Position) -> (r: Vec<TypeErr>) ensures r@.len() == msgs@.len() { unimplemented!() }
 /// the classes a `raise [..]` clause names: TrueName::try_from per entry (OUTLINED map / partition / flat_map chain: the
 /// entries with their positions, or the conversion errors)
 pub uninterp spec fn declared(raises: Seq<AST>) -> Seq<TrueName>;
@@ -720,11 +734,6 @@ pub fn verif_declared_raises(raises: &Vec<AST>) -> (r: TypeResult<Vec<(Position,
 #[verifier::external_body]
 pub fn verif_collect_raises(raises: Vec<(Position, TypeResult<TrueName>)>) -> (r: HashSet<TrueName>)
     ensures hs(r) == ok_names(raises@),
-{ unimplemented!() }
-/// HAVOCKED: "non nullable attribute not assigned to in constructor" report (map / collect closures over body_env.unassigned)
-#[verifier::external_body]
-pub fn verif_havoc_unassigned_report(class: &Class, body_env: &Environment, pos: Position) -> (r: TypeResult<()>)
-    ensures r is Err ==> r->Err_0@.len() >= 1,
 { unimplemented!() }
 pub assume_specification[<TrueName as Clone>::clone](t: &TrueName) -> (r: TrueName) ensures r == *t;
 pub assume_specification<T: Clone, E: Clone>[<Result<T, E> as Clone>::clone](t: &Result<T, E>) -> (r: Result<T, E>) ensures (*t matches Ok(x) ==> r matches Ok(y) && cloned(x, y)), (*t is Err ==> r is Err);
@@ -745,7 +754,14 @@ pub open spec fn fundef_post(ast: AST, env: Environment, ctx: Context, r: Constr
             e == env
             // only subclasses of Exception may be declared
             && (forall|i: int| 0 <= i < declared(raises@).len() ==> is_exception(ctx, #[trigger] declared(raises@)[i]))
-            && (body matches Some(bd) ==> exists|be: Environment| #[trigger] seen(b, *bd, be) && body_env_ok(be, env, raises@, ret))),
+            && (body matches Some(bd) ==> exists|be: Environment| #[trigger] seen(b, *bd, be) && body_env_ok(be, env, raises@, ret))
+            // a constructor: its body starts with exactly the fields it has to assign marked unassigned, and it is accepted only
+            // if none is left at the end of the body (assignments discharge them: unit GENCALL; reads of them are rejected)
+            && (is_ctor(*id, env) ==> match body {
+                Some(bd) => exists|be: Environment, out: Environment| #[trigger] visited(b, *bd, be, out)
+                    && hss(be.unassigned) == must_assign(*id, env, ctx) && hss(out.unassigned) =~= Set::<Seq<char>>::empty(),
+                None => must_assign(*id, env, ctx) =~= Set::<Seq<char>>::empty(),
+            })),
         Node::FunArg { .. } => r is Err,
         _ => true,
     }
@@ -765,9 +781,12 @@ pub open spec fn fundef_post(ast: AST, env: Environment, ctx: Context, r: Constr
 //@@ REPLACE pin=9a346459be5e
 //@@< raises.into_iter().map($$).collect()
 //@@> verif_collect_raises(raises)
-//@@ REPLACE pin=83735b9c883f
-//@@< if let Some(class) = class { $$ }
-//@@> if let Some(class) = class { verif_havoc_unassigned_report(&class, &body_env, id.pos)?; }
+//@@ REPLACE deep
+//@@< let unassigned: Vec<String> = $ue .unassigned .iter() .map(|v| $$) .collect();
+//@@> let unassigned: Vec<String> = verif_set_map_collect(&$ue.unassigned, |v: &String| -> (verif_s: String) ensures true, { $$1 });
+//@@ REPLACE
+//@@< unassigned .iter() .map(|msg| TypeErr::new(id.pos, msg)) .collect()
+//@@> verif_errs_of(&unassigned, id.pos)
 //@@ ITERNAME
 //@@< for (pos, raise) in &raises
 //@@> for (pos, raise) in rit: &raises
@@ -782,7 +801,7 @@ pub open spec fn fundef_post(ast: AST, env: Environment, ctx: Context, r: Constr
 //@@> forall|i: int| 0 <= i < rit.index@ ==> is_exception(*ctx, #[trigger] declared(raises_ast_g@)[i]), //# loop_every_declared_class_so_far_is_an_exception [C08]
     ensures
         mono(*old(constr), *final(constr)),                                      //# visits_are_never_forgotten [C09,C08]
-        fundef_post(*ast, *env, *ctx, r, *final(constr)),                        //# declared_raises_are_exceptions_and_cover_the_body_only [C08,C09]
+        fundef_post(*ast, *env, *ctx, r, *final(constr)),                        //# declared_raises_are_exceptions_and_cover_the_body_only_and_a_constructor_assigns_all_it_must [C08,C09]
         r is Err ==> r->Err_0@.len() >= 1,                                       //# rejection_carries_a_diagnostic [-]
 //@@ END
 
